@@ -3235,8 +3235,8 @@ func (n *RegisteredNexthop) serialize(version uint8, software Software) ([]byte,
 	buf[0] = n.connected // stream_putc(s, (connected) ? 1 : 0);
 	pos := 1
 	if version == 6 && software.name == "frr" && software.version >= 8.2 {
-		buf[1] = n.resolveViaDef
-		binary.BigEndian.PutUint16(buf[1:3], uint16(SafiUnicast)) // stream_putw(s, PREFIX_FAMILY(p));
+		buf[1] = n.resolveViaDef                                  // stream_putc(s, (resolve_via_default) ? 1 : 0);
+		binary.BigEndian.PutUint16(buf[2:4], uint16(SafiUnicast)) // stream_putw(s, safi);
 		pos += 3
 	}
 	// Address Family (2 bytes)
@@ -3248,7 +3248,7 @@ func (n *RegisteredNexthop) serialize(version uint8, software Software) ([]byte,
 		return nil, err
 	}
 
-	buf[3] = byte(addrByteLen * 8) // stream_putc(s, p->prefixlen);
+	buf[pos+2] = byte(addrByteLen * 8) // stream_putc(s, p->prefixlen);
 	// pos += 1
 	// Prefix (variable)
 	switch n.Family {
@@ -3344,6 +3344,9 @@ func (b *NexthopRegisterBody) decodeFromBytes(data []byte, version uint8, softwa
 		b.Nexthops = append(b.Nexthops, nh)
 
 		offset += nh.len()
+		if version == 6 && software.name == "frr" && software.version >= 8.2 {
+			offset += 3 // resolve-via-default (1 byte) + SAFI (2 bytes)
+		}
 		if len(data) < offset {
 			break
 		}
